@@ -140,6 +140,22 @@ Theorem C20_pool_count_wide_example :
 Proof. exact pool_count_wide_example. Qed.
 Print Assumptions C20_pool_count_wide_example.
 
+(* a pool ENDING in a Long or Double: the entry takes the last two indices (count = indices in front + 3) *)
+Theorem C20_pool_count_tail : forall pool e, jvms_is_wide e = true -> jvms_pool_count (pool ++ [e]) < 65536 ->
+  written_pool_count (pool ++ [e]) = Ok (jvms_pool_count pool + 2) /\ jvms_pool_count (pool ++ [e]) = jvms_pool_slots pool + 3.
+Proof. exact pool_count_tail. Qed.
+Print Assumptions C20_pool_count_tail.
+
+Theorem C20_pool_tail_examples :
+  written_pool_count [VV 7 [VN 0; VN 1]] = Ok 3 /\
+  written_pool_count [VV 8 [VN 1074003968; VN 0]] = Ok 3 /\
+  written_pool_count [VV 10 [VL [VN 65]]; VV 7 [VN 0; VN 1]] = Ok 4 /\
+  written_pool_count [VV 10 [VL [VN 65]]; VV 8 [VN 1074003968; VN 0]] = Ok 4 /\
+  written_pool_count [VV 7 [VN 0; VN 1]; VV 8 [VN 1074003968; VN 0]] = Ok 5 /\
+  jvms_is_wide (VV 7 [VN 0; VN 1]) = true /\ jvms_is_wide (VV 8 [VN 1074003968; VN 0]) = true /\ jvms_is_wide (VV 10 [VL [VN 65]]) = false.
+Proof. exact pool_tail_examples. Qed.
+Print Assumptions C20_pool_tail_examples.
+
 (* class files whose pool holds 8-byte constants (a minimal one with one CONSTANT_Long, and javac's
    WideConst.class with two longs and a double in front of the attribute names): well-formed per an
    independent 4.4.5 walk, accepted by the strict reader to the last byte, inside the hypotheses of
